@@ -147,7 +147,8 @@ def backend_stop(name, frac, out):
 
     def wrapped(fun, t_span, *args, t_eval=None, **kw):
         tau = float(t_span[0] + frac * (t_span[1] - t_span[0]))
-        te = np.asarray(t_eval)[np.asarray(t_eval) <= tau]
+        # same signature as the real back end: t_eval is optional (dense output, own grid)
+        te = None if t_eval is None else np.asarray(t_eval)[np.asarray(t_eval) <= tau]
         sol = real(fun, (float(t_span[0]), tau), *args, t_eval=te, **kw)
         sol.status = -1
         sol.success = False
